@@ -73,10 +73,14 @@ def run_job(job, binpath, deadline_s):
 
 
 def load_known():
-    p = os.path.join(HERE, "known_findings.json")
-    if not os.path.exists(p):
-        return {"known": [], "fixed": []}
-    return json.load(open(p))
+    """known_findings.json plus any known_findings_<ID>.json (large per-property lists are kept in their own file)"""
+    import glob
+    out = {"known": [], "fixed": []}
+    for p in sorted(glob.glob(os.path.join(HERE, "known_findings*.json"))):
+        k = json.load(open(p))
+        out["known"].extend(k.get("known", []))
+        out["fixed"].extend(k.get("fixed", []))
+    return out
 
 
 def sanitize(s):
